@@ -1001,10 +1001,11 @@ func (db *DB) initDatabaseFile() error {
 	} else if err != nil {
 		return fmt.Errorf("cannot read database header: %w", err)
 	}
+	if !ltx.IsValidPageSize(hdr.PageSize) {
+		return fmt.Errorf("invalid database page size: %d", hdr.PageSize)
+	}
 	db.pageSize = hdr.PageSize
 	db.pageN.Store(hdr.PageN)
-
-	assert(db.pageSize > 0, "page size must be greater than zero")
 
 	db.chksums.mu.Lock()
 	defer db.chksums.mu.Unlock()
